@@ -51,6 +51,8 @@ Step ==
          /\ Check("dbiter", Norm(e.res), IterR(db, <<>>, e.q, e.limit, e.rev = 1))
          /\ UNCHANGED <<db, eff, snaps, prev>>
     [] e.op = "snap" ->
+         \* a new snapshot gets an id no live snapshot has (or it would silently replace that snapshot's saved state)
+         /\ Check("snapshot-id-reused", B(e.id \in DOMAIN snaps), 0)
          /\ snaps' = (e.id :> eff) @@ snaps /\ UNCHANGED <<db, eff, prev>>
     [] e.op = "restore" ->
          /\ Check("restore-err", e.err, B(e.id \notin DOMAIN snaps))
